@@ -1004,13 +1004,21 @@ def otherCont (n : Node) (pgn src len : Nat) (buf : List Nat) : Node × Option N
          if (contSlot a len buf).data.length ≥ (contSlot a len buf).dataLen then some j else none)
       else (n.setSlot j (freeMessage a), none)
 
+/-- `firstSlot` of the model is `newSlot` (the same record written with a `match`) -/
+theorem firstSlot_eq_newSlot (old : Option Slot) (fast : Bool) (prio pgn src dst now32 len : Nat) (buf : List Nat) :
+    firstSlot old fast prio pgn src dst now32 len buf = newSlot fast prio pgn src dst len buf now32 old := by
+  cases old <;> rfl
+
 theorem handleOther_eq (n : Node) (prio pgn src dst len : Nat) (buf : List Nat) :
     handleOther n prio pgn src dst len buf =
       if ¬ ((checkKnown pgn).1 ∨ ¬ n.onlyKnown) then (n, none) else
       if (checkKnown pgn).2 ∧ buf.getD 0 0 &&& 0x1f ≠ 0 then otherCont n pgn src len buf
       else otherNew (n.withSlots (findFree n.slots (millis32 n.s.now) pgn src dst false).1)
         (findFree n.slots (millis32 n.s.now) pgn src dst false).2 (checkKnown pgn).2 prio pgn src dst len buf
-        (millis32 n.s.now) := rfl
+        (millis32 n.s.now) := by
+  unfold handleOther
+  simp only [firstSlot_eq_newSlot]
+  rfl
 
 theorem otherCont_shift {k : Nat} {n : Node} (h : n.ShiftOk k) (pgn src len : Nat) (buf : List Nat) :
     ComP k n (otherCont n pgn src len buf) (otherCont (n.shift k) pgn src len buf) := by
